@@ -298,7 +298,9 @@ func NewReverseInnerSearcher(
 		prefilter:       pre,
 		pikevm:          pikevm,
 		innerLen:        innerLen,
-		universalPrefix: universalPrefix,
+		// isUniversalMatch also accepts .+, which cannot match the empty region
+		// in front of a literal found at position 0 (see IsMatch).
+		universalPrefix: universalPrefix && innerInfo.PrefixAST.Op != syntax.OpPlus,
 		universalSuffix: universalSuffix,
 		startAnchored:   startAnchored,
 		wholeInput:      wholeInput,
